@@ -376,6 +376,24 @@ func execC06(e *Env, p *Plan) error {
 				e.Count("q.disk-only")
 				break
 			}
+			if len(op.Sub) > 1 && op.Sub[1].K == "window" {
+				// the window the query reports (and the comparison below works
+				// with) must not be narrower than the one that was asked for,
+				// up to the table's period grid and its retention
+				res := mt.Def.ResNanos
+				reqAsOf, reqUntil := BaseNanos+op.Sub[1].N, BaseNanos+op.Sub[1].N2
+				lo := CeilTo(reqAsOf, res)
+				if rl := CeilTo(time.Now().UnixNano()-mt.Def.RetNanos, res); rl > lo {
+					lo = rl
+				}
+				hi := CeilTo(reqUntil, res)
+				if hi > reqUntil {
+					hi -= res
+				}
+				if q.AsOf > lo || q.Until < hi {
+					return &Violation{"window-narrower-than-requested", fmt.Sprintf("%q reports the window (%v, %v] although (%v, %v] was asked for (table resolution %v)", sql, time.Duration(q.AsOf-BaseNanos), time.Duration(q.Until-BaseNanos), time.Duration(reqAsOf-BaseNanos), time.Duration(reqUntil-BaseNanos), time.Duration(res))}
+				}
+			}
 			if v := checkGrouped(e, mt, q, op.Strs, strings.Split(op.S2, ","), sql); v != nil {
 				return v
 			}
